@@ -141,3 +141,29 @@ HARNESS(h_bootstrapping_key) {
     CHECK(rng_n == at && !rng_bad_engine, "C07 bootstrapping key generation: no draw beyond the rows, all from the library generator");
     symx_witness();
 }
+
+/* re-seeding: "re-seeding with the same seed reproduces the same keys and ciphertexts" needs every bit of sampler state to live
+ * in the engine that tfhe_random_generator_setSeed resets. The uniform distributions are stateless; the normal distribution
+ * saves every second variate inside the distribution object (the stub keeps that bookkeeping, models/rng.cpp). After an
+ * arbitrary number of gaussian draws and a re-seed, the next draws must not return a variate saved before the re-seed. */
+#ifndef NDRAWS
+#define NDRAWS 3
+#endif
+HARNESS(h_reseed) {
+    symx_run_ctors();
+    uint32_t seed[2] = { nondet_u32(), nondet_u32() };
+    tfhe_random_generator_setSeed(seed, 2);
+    rng_epoch++;
+    uint32_t k = nondet_u32(); ASSUME(k <= NDRAWS);
+    double sigma = nondet_f64(); ASSUME(sigma > 0.0 && sigma < 1.0);
+    uint32_t acc = 0;
+    for (uint32_t i = 0; i < NDRAWS; i++) if (i < k) acc += (uint32_t) gaussian32((Torus32) nondet_u32(), sigma);
+    tfhe_random_generator_setSeed(seed, 2);
+    rng_epoch++;
+    rng_stale_used = CANARY;
+    acc += (uint32_t) gaussian32(0, sigma);
+    acc += (uint32_t) gaussian32(0, sigma);
+    symx_observe(acc);
+    CHECK(!rng_stale_used, "C07 after tfhe_random_generator_setSeed no gaussian draw returns a variate that was computed before the re-seed (all sampler state lives in the engine)");
+    symx_witness();
+}
